@@ -1523,7 +1523,18 @@ func c03Ship(c *Ctx) {
 			okSlice := false
 			for _, e := range t.Ev[:encIdx] {
 				if e.Kind == EvAssign && e.LObj == encBuf {
-					if sl, ok := ast.Unparen(e.RHS).(*ast.SliceExpr); ok && sl.High != nil {
+					src := e.RHS
+					if e.RetExpr != nil {
+						src = e.RetExpr // the slice is cut by a helper that is interpreted in place
+					}
+					if sl, ok := ast.Unparen(src).(*ast.SliceExpr); ok && sl.High != nil {
+						hi := sl.High
+						if po := h.objOf(hi); po != nil {
+							if ax, ok := t.Env.argEx[po]; ok {
+								hi = ax // the helper's parameter stands for this argument
+							}
+						}
+						sl = &ast.SliceExpr{X: sl.X, Low: sl.Low, High: hi}
 						hv := h.objOf(sl.High)
 						// High is the variable holding pkt.Len(), or the call itself
 						for _, p := range t.Ev {
